@@ -215,10 +215,11 @@ def op_rank_graph(job):
     out = []
     cols = job['columns']
     for b in range(job.get('batches', 1)):
-        args = L.make_args(**job.get('args', {}))
+        over = {'label_column': job['label_seq'][b]} if job.get('label_seq') else {}      # successive rankings of one frame against different targets (one process)
+        args = L.make_args(**dict(job.get('args', {}), **over))
         df = pd.DataFrame({c: job['frame'][c] for c in cols}, columns=cols)
         combos = CR.get_combinations_from_columns(df.columns, args)
-        args = L.make_args(**job.get('args', {}))          # get_combinations may clamp the cap in place
+        args = L.make_args(**dict(job.get('args', {}), **over))          # get_combinations may clamp the cap in place
         log = []
         pool = L.ScheduledPool(nodes=job.get('nodes', 1), completion=job.get('completion'), log=log)
         if job.get('pool_kind') == 'real':
